@@ -6,7 +6,7 @@
    with/without differential runs of mwlab. *)
 From Coq Require Import List String Bool Arith ZArith.
 Import ListNotations.
-From ClasticV Require Import Base.Py Base.Strs Model.Mw Gen.MwGuards Proofs.MwProofs.
+From ClasticV Require Import Base.Py Base.Strs Model.Mw Gen.MwGuards Gen.MwShape Proofs.MwProofs.
 Local Open Scope string_scope.
 Local Open Scope list_scope.
 
@@ -76,3 +76,84 @@ Proof.
   destruct (raise_untouched compress q e) as [D [_ [F _]]]. auto.
 Qed.
 Print Assumptions C15_errors_untouched.
+
+(* obligation on the source: the request / render functions of the built-in middlewares that Model/Mw.v transcribes as transformers of the inner outcome or as pass-through, statement by statement, regenerated on every run *)
+Theorem C15_request_shape :
+  SK_GZIPMIDDLEWARE_REQUEST =
+  ["resp = next()";
+   "if not hasattr(resp, 'vary')";
+   "  return resp";
+   "resp.vary.add('Accept-Encoding')";
+   "if resp.content_encoding or not request.accept_encodings['gzip']";
+   "  return resp";
+   "if 'msie' in (request.user_agent.browser or '')";
+   "  content_type = resp.content_type or ''";
+   "  if not (content_type.startswith('text/') or 'javascript' in content_type)";
+   "    return resp";
+   "if resp.is_streamed";
+   "  return resp";
+   "comp_content = gzip_bytes(resp.data, self.compress_level)";
+   "if len(comp_content) >= len(resp.data)";
+   "  return resp";
+   "resp.response = [comp_content]";
+   "resp.content_length = len(comp_content)";
+   "resp.content_encoding = 'gzip'";
+   "return resp"] /\
+  SK_HTTPCACHEMIDDLEWARE_REQUEST =
+  ["resp = next()";
+   "if hasattr(resp, 'cache_control')";
+   "  for attr in self.cache_attrs";
+   "    cache_val = getattr(self, attr, None)";
+   "    if cache_val";
+   "      setattr(resp.cache_control, attr, cache_val)";
+   "  if self.use_etags and (not resp.is_streamed)";
+   "    resp.add_etag()";
+   "    resp.make_conditional(request)";
+   "return resp"] /\
+  SK_SIMPLEPROFILEMIDDLEWARE_REQUEST =
+  ["if not request.args.get(self.get_param_name)";
+   "  return next()";
+   "sort_param = request.args.get(self.sort_param_name, 'time')";
+   "if sort_param not in _sort_keys";
+   "  raise KeyError('%s is not a supported sort_key. choose from: %r' % (sort_param, _sort_keys))";
+   "profiler = cProfile.Profile()";
+   "try";
+   "  ret = profiler.runcall(next)";
+   "except Exception";
+   "  if self.raise_exc";
+   "    raise";
+   "buff = StringIO()";
+   "Stats(profiler, stream=buff).sort_stats(sort_param).print_stats()";
+   "body = _prof_tmpl % buff.getvalue()";
+   "ret.set_data(body)";
+   "return ret"] /\
+  SK_SCRIPTROOTMIDDLEWARE_REQUEST =
+  ["return next(**{self.provided_name: request.script_root})"] /\
+  SK_GETPARAMMIDDLEWARE_REQUEST =
+  ["kwargs = {}";
+   "for (p_name, p_type) in self.params.items()";
+   "  kwargs[p_name] = request.args.get(p_name, None, p_type)";
+   "return next(**kwargs)"] /\
+  SK_POSTDATAMIDDLEWARE_REQUEST =
+  ["kwargs = {}";
+   "for (p_name, p_type) in self.params.items()";
+   "  kwargs[p_name] = request.form.get(p_name, None, p_type)";
+   "return next(**kwargs)"] /\
+  SK_CONTEXTPROCESSOR_CREATE_RENDER =
+  ["def process_render_context(next, context, **kwargs)";
+   "  if not isinstance(context, Mapping)";
+   "    return next()";
+   "  desired_args = self.required + list(self.defaults.keys())";
+   "  for arg in desired_args";
+   "    if not self.overwrite and arg in context";
+   "      continue";
+   "    context[arg] = kwargs.get(arg, self.defaults.get(arg))";
+   "  return next()";
+   "def_items = self.defaults.items()";
+   "_req_args = ['next', 'context'] + self.required + [arg for arg, val in def_items]";
+   "_def_vals = [val for arg, val in def_items]";
+   "fb = FunctionBuilder('process_render_context', args=_req_args, defaults=_def_vals)";
+   "process_render_context._sinter_fb = fb";
+   "return process_render_context"].
+Proof. repeat split; reflexivity. Qed.
+Print Assumptions C15_request_shape.
